@@ -482,6 +482,9 @@ async def _multi_main(loop, case: dict, tmp: str):
     from aioslsk.client import SoulSeekClient
     from aioslsk.settings import Settings
     from aioslsk.transfer.state import TransferState
+    # a thread-pool round trip (aiofiles, os.path.exists in create_directory) suspends the caller as it does on a real
+    # loop: two downloads of one file name that start in the same instant interleave at every such await
+    loop.executor_suspends = bool(case.get('exsusp'))
     ups = [{'name': 'up', 'flen': case['flen'], 'mul': case['mul'], 'add': case['add']}]
     for i, u in enumerate(case['second']):
         ups.append({'name': f'up{i + 2}', 'flen': u['flen'], 'mul': u['mul'], 'add': u['add']})
@@ -736,4 +739,10 @@ def gen_cases(rng: random.Random, n: int) -> list:
                     'lat_p': rng.choice([0.005, 0.02, 0.5]), 'lat_f': rng.choice([0.005, 0.02]),
                     'lat_f_by': {slow: rng.choice([0.1, 0.5, 2.0])} if slow else {},
                     'lim_up': rng.choice([0, 0, 500]), 'lim_down': rng.choice([0, 0, 500])})
+        if i % 2 == 0:
+            # executor round trips suspend; most of these start in the same instant (the window between "this name is
+            # free" and the claim of the name can only be entered by a download that starts inside it)
+            out[-1]['exsusp'] = True
+            if i % 8 != 6:
+                out[-1]['stagger'] = 0
     return out
